@@ -54,6 +54,16 @@ def gen_calls(family, tier, r):
         for p, t in [("a*a", "a"), ("*!*@longhost.example", "a!b@c"), ("?", "é"), ("??", "é"), ("*", ""), ("", ""),
                      ("", "a"), ("a", ""), ("**", "abc"), ("a**b", "ab"), ("*a*a*a*", "aa"), ("a*b*c", "abcabc")]:
             calls.append(("mw", [p, t]))
+    elif family == "banned":
+        from .canon import esc_list
+        idents = ["alice!~ual@127.0.0.1", "Alice!~ual@127.0.0.1", "BOB!~Ubo@10.0.0.2", "bob!~ubo@10.0.0.2", "é!~x@::1",
+                  "Mallory!~mal@host.Example.org"]
+        masks = ["*!*@*", "alice!*@*", "Alice!*@*", "*!~U*@*", "B*!*@*", "*!*@127.0.0.1", "bob!*@*", "BOB!*@10.*",
+                 "*!*@*.Example.org", "?lice!*@*", "*ICE!*@*", "mallory!*@*", "Mallory!*@*", "*!~mal@*"]
+        for _ in range(1500 if tier == "quick" else 12000):
+            ban = [r.choice(masks) for _ in range(r.choice([0, 1, 1, 2, 3]))]
+            exc = [r.choice(masks) for _ in range(r.choice([0, 0, 1, 2]))]
+            calls.append(("banned_raw", [esc_list(sorted(set(ban))), esc_list(sorted(set(exc))), esc(r.choice(idents))]))
     elif family == "norm":
         for _ in range(2000):
             calls.append(("norm", ["".join(r.choice("ab!@*.é") for _ in range(r.choice([0, 1, 2, 4, 7])))]))
@@ -191,12 +201,16 @@ def fmt_call(c):
     name, args = c
     if name == "codec" or name == "chum":
         return name + " " + " ".join(args)
+    if name == "banned_raw":
+        return "banned " + " ".join(args)
     return name + " " + " ".join(esc(a) for a in args)
 
 
 FAMILIES = {
     "C13": ["msg", "cmd", "render", "validators", "codec"],
-    "C14": ["mw", "norm"],
+    "C14": ["mw", "norm", "banned"],
+    "C07": ["banned"],
+    "C10": ["banned"],
     "C20": ["config", "hash"],
 }
 
